@@ -394,6 +394,102 @@ def duplicate_key_case(ctx, case):
     ctx.evaluations += max(n - 1, 0)
 
 
+def sized_script(size):
+    """byte code of exactly `size` bytes with verdict true"""
+    k = size - 1
+    if k == 0:
+        fill = b''
+    elif k == 2:
+        fill = op('TRUE') + op('POP0')
+    elif k <= 258:
+        fill = b'\x03' + bytes([k - 3]) + b'\x5a' * (k - 3) + op('POP0')
+    else:
+        fill = b'\x04' + (k - 4).to_bytes(2, 'big') + b'\x5a' * (k - 4) + op('POP0')
+    return fill + op('TRUE')
+
+
+def script_size_case(ctx, size):
+    """committed / surrogate scripts around the push-size boundaries, as Script objects and (surrogate) as source text"""
+    seed = ctx.seed
+    env.Clock.now = 1_700_000_000
+    sk = seeds(seed)
+    pk = {k: refed.public_key(v) for k, v in sk.items()}
+    code = sized_script(size)
+    assert len(code) == size
+    S = T.Script.from_bytes(code)
+    cache = sigfields(seed, (1, 2))
+    cache['timestamp'] = 1_700_000_000
+    n = 0
+    pairs = []
+    try:
+        pairs.append(('scripthash', T.make_scripthash_witness(S).bytes, T.make_scripthash_lock(S).bytes))
+        pairs.append(('graftroot surrogate', T.make_graftroot_witness_surrogate(sk['A'], S).bytes, T.make_graftroot_lock(pk['A']).bytes))
+        pairs.append(('graftroot surrogate (source text)', T.make_graftroot_witness_surrogate(sk['A'], S.src).bytes,
+                      T.make_graftroot_lock(pk['A']).bytes))
+        pairs.append(('graftap script path', T.make_graftap_witness_scriptspend(sk['A'], S).bytes, T.make_graftap_lock(pk['A']).bytes))
+    except BaseException as e:
+        ctx.violation({'clause': 'builders run', 'block': 'script sizes', 'size': size if size in (255, 256, 257) else 'other'},
+                      f'script of {size} bytes: {e!r}')
+    for name, wb, lb in pairs:
+        n += 1
+        try:
+            v = F.run_auth_scripts([wb, lb], dict(cache), stack_max_item_size=4096)
+        except BaseException as e:
+            v = e
+        ctx.ran()
+        ctx.trans(2)
+        ctx.state(('script-size', size, name))
+        ctx.outcome('size:%s' % (v if type(v) is bool else 'raised'))
+        if v is not True:
+            ctx.violation({'clause': 'exactly the intended holder can unlock', 'block': 'script sizes', 'family': name.split(' ')[0],
+                           'kind': 'rejects'}, f'{name}, script of {size} bytes: {v!r}')
+    ctx.evaluations += max(n - 1, 0)
+
+
+def key_forms_case(ctx, fl):
+    """every builder accepts its keys as bytes or as PyNaCl key objects and produces the same script either way"""
+    import nacl.signing
+    seed = ctx.seed
+    env.Clock.now = 1_700_000_000
+    sk = seeds(seed)
+    skb, sko = sk['A'], nacl.signing.SigningKey(sk['A'])
+    pkb, pko = bytes(sko.verify_key), sko.verify_key
+    pk2b = refed.public_key(sk['B'])
+    pk2o = nacl.signing.SigningKey(sk['B']).verify_key
+    sf = sigfields(seed, (1, 2))
+    S = T.Script.from_src('true')
+    forms = [
+        ('make_single_sig_lock', lambda k, s_: T.make_single_sig_lock(k, fl), 'pub'),
+        ('make_single_sig_lock2', lambda k, s_: T.make_single_sig_lock2(k, fl), 'pub'),
+        ('make_graftroot_lock', lambda k, s_: T.make_graftroot_lock(k, fl), 'pub'),
+        ('make_graftap_lock', lambda k, s_: T.make_graftap_lock(k, fl), 'pub'),
+        ('make_multisig_lock', lambda k, s_: T.make_multisig_lock([k, pk2o if k is pko else pk2b], 2, fl), 'pub'),
+        ('make_single_sig_witness', lambda k, s_: T.make_single_sig_witness(s_, dict(sf), fl), 'prv'),
+        ('make_single_sig_witness2', lambda k, s_: T.make_single_sig_witness2(s_, dict(sf), fl), 'prv'),
+        ('make_graftroot_witness_keyspend', lambda k, s_: T.make_graftroot_witness_keyspend(s_, dict(sf), fl), 'prv'),
+        ('make_graftroot_witness_surrogate', lambda k, s_: T.make_graftroot_witness_surrogate(s_, S), 'prv'),
+        ('make_graftap_witness_keyspend', lambda k, s_: T.make_graftap_witness_keyspend(s_, dict(sf), fl), 'prv'),
+        ('make_graftap_witness_scriptspend', lambda k, s_: T.make_graftap_witness_scriptspend(s_, S), 'prv'),
+    ]
+    n = 0
+    for name, fn, kind in forms:
+        n += 1
+        ctx.state(('keyforms', fl, name))
+        out = []
+        for k, s_ in ((pkb, skb), (pko, sko)):
+            try:
+                out.append(fn(k, s_).bytes)
+            except BaseException as e:
+                out.append(repr(e))
+        ctx.ran(2)
+        ctx.outcome('keyforms:%s' % ('same' if out[0] == out[1] else 'differ'))
+        if out[0] != out[1] or type(out[0]) is not bytes:
+            ctx.violation({'clause': 'builders accept keys as bytes or key objects', 'builder': name},
+                          f'{name} flags {fl}: bytes form {out[0] if type(out[0]) is str else out[0].hex()[:60]}, '
+                          f'object form {out[1] if type(out[1]) is str else out[1].hex()[:60]}')
+    ctx.evaluations += n - 1
+
+
 def pair_case(ctx, case):
     wi, tier = case
     seed = ctx.seed
@@ -456,6 +552,11 @@ def blocks(tier, seed):
                   'm-of-n for (m, n) in %s: m holders / m-1 holders / nobody / outsider / one holder repeated' % (WIDE,), nshards=len(WIDE)),
             Block('flag_bits', list(FLAG_BITS), flag_bits_case, 'flags %s x 5 signing families x allowed {flag, ~flag, ff} x every sigfield '
                   'changed on the verifier side (all eight present)' % (FLAG_BITS,), nshards=len(FLAG_BITS)),
+            Block('script_sizes', [1, 3, 127, 128, 129, 254, 255, 256, 257, 258, 259, 260, 511, 512, 900], script_size_case,
+                  'committed / surrogate scripts of 1..900 bytes (both sides of 2^7, 2^8, 2^9; the builders sign under the default 1024-byte item limit) through the script-hash, graftroot '
+                  'surrogate (Script and source text) and graftap script-path builders', nshards=16),
+            Block('key_object_forms', ['00', '01', '80'], key_forms_case,
+                  '11 builders x keys given as bytes / as PyNaCl SigningKey / VerifyKey objects x 3 flag values: identical scripts', nshards=3),
             Block('multisig_duplicate_keys', list(DUP_LOCKS), duplicate_key_case,
                   'make_multisig_lock with a holder listed twice: %s' % ([(k, m) for k, m, _, _ in DUP_LOCKS],), nshards=len(DUP_LOCKS)),
             Block('empty_covered_message', list(EMPTY_MSG), empty_message_case,
